@@ -4,6 +4,7 @@ import (
 	"encoding/json"
 	"fmt"
 	"github.com/meshplus/bitxhub-core/governance"
+	"strings"
 
 	"github.com/bytecodealliance/wasmtime-go"
 	"github.com/meshplus/bitxhub-kit/types"
@@ -158,6 +159,82 @@ func (s *scn) applyRelayTrust(st CStep) {
 		s.add(s.b.bvm(k, constant.GovernanceContractAddr, "Vote", pb.String(g.ProposalID), pb.String("approve"), pb.String("r")), &txMeta{kind: "vote", sender: k, note: "approve", target: g.ProposalID})
 	}
 	s.flush()
+}
+
+// observeMasterRules reads the master rule of every appchain back (after every block).
+func (s *scn) observeMasterRules(h uint64) {
+	var q []pb.Transaction
+	for _, c := range s.chains {
+		q = append(q, viewTx(s.users[0], constant.RuleManagerContractAddr, "GetMasterRule", pb.String(c.id)))
+	}
+	rcs := s.reps[0].viewCall(q...)
+	for i, c := range s.chains {
+		kind := "unknown"
+		if i < len(rcs) && rcs[i] != nil && rcs[i].Status == pb.Receipt_SUCCESS {
+			var ru struct {
+				Address string `json:"address"`
+			}
+			_ = json.Unmarshal(rcs[i].Ret, &ru)
+			switch {
+			case strings.EqualFold(ru.Address, happyRule):
+				kind = "happy"
+			case s.bitAddr != "" && strings.EqualFold(ru.Address, s.bitAddr):
+				kind = "bit"
+			case strings.EqualFold(ru.Address, "0x00000000000000000000000000000000000000a1"):
+				kind = "fabsim"
+			}
+		}
+		if kind != c.rule {
+			s.res.Count("probe_master_rule_changed")
+			s.logf("  master rule of %s: %s -> %s", c.id, c.rule, kind)
+			c.rule, c.ruleAt = kind, h
+		}
+	}
+}
+
+// applyRuleOp: rule lifecycle of an appchain (register another rule, update the master rule through governance with
+// an approving or rejecting vote, log a rule out).
+func (s *scn) applyRuleOp(st CStep) {
+	if s.bitAddr == "" {
+		return
+	}
+	c := s.chains[st.A%len(s.chains)]
+	if c.rule == "fabsim" {
+		return // Fabric-type appchains accept other rule sets; not modelled
+	}
+	target := []string{happyRule, s.bitAddr}[st.N%2]
+	s.flush()
+	switch st.Act {
+	case "register":
+		s.add(s.b.bvm(c.admin, constant.RuleManagerContractAddr, "RegisterRule", pb.String(c.id), pb.String(s.bitAddr), pb.String("url")), &txMeta{kind: "gov", sender: c.admin, note: "register-rule/" + c.id, target: c.id})
+		s.flush()
+		return
+	case "logout":
+		s.add(s.b.bvm(c.admin, constant.RuleManagerContractAddr, "LogoutRule", pb.String(c.id), pb.String(target)), &txMeta{kind: "gov", sender: c.admin, note: "logout-rule/" + c.id, target: c.id})
+		s.flush()
+		return
+	}
+	s.add(s.b.bvm(c.admin, constant.RuleManagerContractAddr, "UpdateMasterRule", pb.String(c.id), pb.String(target), pb.String("reason")), &txMeta{kind: "gov", sender: c.admin, note: fmt.Sprintf("update-master-rule/%s/%s", c.id, map[bool]string{true: "happy", false: "bit"}[target == happyRule]), target: c.id})
+	rs := s.flush()
+	if rs == nil || len(rs.Receipts) == 0 {
+		return
+	}
+	rc := rs.Receipts[len(rs.Receipts)-1]
+	g := &governance.GovernanceResult{}
+	if rc.Status != pb.Receipt_SUCCESS || json.Unmarshal(rc.Ret, g) != nil || g.ProposalID == "" {
+		return
+	}
+	v := "approve"
+	if st.V == "reject" {
+		v = "reject"
+	}
+	w := s.cfg.World
+	for i := 0; i < w.Admins; i++ {
+		k := w.adminKey(i)
+		s.add(s.b.bvm(k, constant.GovernanceContractAddr, "Vote", pb.String(g.ProposalID), pb.String(v), pb.String("r")), &txMeta{kind: "vote", sender: k, note: v, target: g.ProposalID})
+	}
+	s.flush()
+	s.res.Count("rule_updates_" + v)
 }
 
 func (s *scn) deployBitRule() *types.Address {
